@@ -40,6 +40,9 @@ pub struct CCfg {
 
 #[derive(Clone, Debug, Serialize, Deserialize)]
 pub struct SchedCase {
+    /// `Some(level)`: gzip negotiated (the writer then issues several chunker writes per operation)
+    #[serde(default)]
+    pub gzip: Option<u32>,
     pub chunk: usize,
     pub program: Vec<POp>,
     pub cfg: CCfg,
@@ -341,7 +344,9 @@ fn producer(sched: Arc<Sched>, mut w: crate::props::stream::SWriter, case: Sched
                         let k = k.min(buf.len());
                         st.accepted.extend_from_slice(&buf[..k]);
                         pos += k as u64;
-                        if st.model_buf + k >= case.chunk {
+                        if case.gzip.is_some() {
+                            // compressed: what reaches the queue is not known to the model
+                        } else if st.model_buf + k >= case.chunk {
                             st.flushed = st.accepted.len();
                             st.model_buf = 0;
                         } else {
@@ -368,7 +373,9 @@ fn producer(sched: Arc<Sched>, mut w: crate::props::stream::SWriter, case: Sched
                 let mut st = sched.m.lock().unwrap();
                 match r {
                     Ok(Ok(())) => {
-                        st.flushed = st.accepted.len();
+                        if case.gzip.is_none() {
+                            st.flushed = st.accepted.len();
+                        }
                         st.model_buf = 0;
                         if st.aborted.is_some() {
                             st.violate("abort:flush-ok-after-abort", format!("op {i} flush succeeded after abort"));
@@ -384,6 +391,7 @@ fn producer(sched: Arc<Sched>, mut w: crate::props::stream::SWriter, case: Sched
                     Err(m) => st.violate("panic:producer", format!("op {i} flush panicked: {m}")),
                 }
             }
+            POp::Wait if case.gzip.is_some() => {}
             POp::Wait => {
                 {
                     let mut st = sched.m.lock().unwrap();
@@ -422,10 +430,12 @@ fn producer(sched: Arc<Sched>, mut w: crate::props::stream::SWriter, case: Sched
     {
         let mut st = sched.m.lock().unwrap();
         if st.aborted.is_none() {
-            st.flushed = st.accepted.len();
+            if case.gzip.is_none() {
+                st.flushed = st.accepted.len();
+            }
             st.writer_gone = true;
-            // every queued chunk holds at least one byte
-            st.queued_at_gone = st.flushed.saturating_sub(st.received.len());
+            // every queued chunk holds at least one byte (gzip: header + blocks + trailer bound)
+            st.queued_at_gone = if case.gzip.is_some() { st.accepted.len() + 64 } else { st.flushed.saturating_sub(st.received.len()) };
         }
         st.ev("P drop".into());
     }
@@ -634,7 +644,7 @@ fn run_pair(p: Job, c: Job) {
 
 /// Runs one schedule.
 pub fn execute(case: &SchedCase) -> Outcome {
-    let (_head, body, w) = build(None, case.chunk);
+    let (_head, body, w) = build(case.gzip, case.chunk);
     let w = w.expect("writer");
     let sched = Arc::new(Sched {
         m: Mutex::new(St {
@@ -667,6 +677,14 @@ pub fn execute(case: &SchedCase) -> Outcome {
     if st.violation.is_none() {
         let ev = st.events.join(" | ");
         match (st.aborted, t.terminal()) {
+            (None, Some(Ev::End)) if case.gzip.is_some() => {
+                let d = crate::oracle::inflate::gunzip_prefix(&st.received);
+                let ok = matches!(d.status, crate::oracle::inflate::Status::Complete { consumed, crc_ok: true, isize_ok: true } if consumed == st.received.len()) && d.out == st.accepted;
+                if !ok {
+                    let (r, a) = (st.received.len(), st.accepted.len());
+                    st.violate("missing-bytes:gzip", format!("clean end: the {r} bytes received are not one gzip member of the {a} bytes written ({:?}); history: {ev}", d.status));
+                }
+            }
             (None, Some(Ev::End)) => {
                 if st.received != st.accepted {
                     let (r, a) = (st.received.len(), st.accepted.len());
@@ -674,7 +692,7 @@ pub fn execute(case: &SchedCase) -> Outcome {
                 }
             }
             (Some(id), Some(Ev::Err(HarnessError::Injected(e)))) if *e == id => {
-                if !st.accepted.starts_with(&st.received) {
+                if case.gzip.is_none() && !st.accepted.starts_with(&st.received) {
                     st.violate("abort:not-a-prefix", format!("bytes received before the abort error are not a prefix of the bytes written; history: {ev}"));
                 }
             }
@@ -735,13 +753,14 @@ pub fn check(case: &SchedCase, acc: &mut Acc, c11: bool) -> (Check, Vec<ChoicePo
         }
         let has_abort = case.program.iter().any(|o| matches!(o, POp::Abort));
         let label = format!(
-            "{}{}{}",
+            "{}{}{}{}",
             if has_abort { "abort" } else { "clean" },
+            if case.gzip.is_some() { ":gzip" } else { "" },
             if case.cfg.fresh_waker { ":fresh-waker" } else { ":same-waker" },
             if out.parks > 0 { ":parked" } else { "" }
         );
         let nontrivial = out.parks > 0 || out.preemptions > 0;
-        acc.note(&label, nontrivial, fingerprint(&(&case.program, case.cfg, &case.choices, case.chunk)), || {
+        acc.note(&label, nontrivial, fingerprint(&(&case.program, case.cfg, &case.choices, case.chunk, case.gzip)), || {
             json!({"case": case, "history": out.events, "preemptions": out.preemptions})
         });
         Ok(())
@@ -863,14 +882,16 @@ fn random_strategy(with_abort: bool) -> BoxedStrategy<SchedCase> {
         any::<bool>(),
         1u8..=3,
         vec(0u8..2, 0..60),
+        prop_oneof![4 => Just(None), 1 => (1u32..=9).prop_map(Some)],
     )
-        .prop_map(move |(mut program, chunk, fresh_waker, spurious, sample, extra_polls, choices)| {
+        .prop_map(move |(mut program, chunk, fresh_waker, spurious, sample, extra_polls, choices, gzip)| {
             if with_abort && !program.iter().any(|o| matches!(o, POp::Abort)) {
                 let at = choices.len() % (program.len() + 1);
                 program.insert(at, POp::Abort);
             }
             SchedCase {
-                chunk,
+                gzip,
+                chunk: if gzip.is_some() { chunk + 5 } else { chunk },
                 program,
                 cfg: CCfg {
                     fresh_waker,
@@ -887,7 +908,7 @@ fn random_strategy(with_abort: bool) -> BoxedStrategy<SchedCase> {
 pub const META_C10: Meta = Meta {
     id: "C10",
     level: "exploration",
-    rule: "Schedule enumeration on the real chunker code through hook H1: producer programs of up to 4 operations (thorough 5) over {write(1), write(2), flush, wait-until-delivered} + drop, chunk size 2, against a consumer that parks on Pending, with same/fresh waker per poll (wakes to superseded wakers are ignored), 0 or 2 spurious polls, with/without is_end_stream/size_hint sampling; every schedule with <= 2 preemptions (thorough 3) is executed by stateless DFS (two real threads, exactly one runs, hand-over at lock acquisitions, wake() and operation boundaries); plus proptest over programs of <= 6 operations, chunk sizes 1-3 and random choice vectors (unbounded preemptions). Oracle (history invariants): no quiescent state with the consumer parked and un-woken while data, end or abort is undelivered; everything flushed is received in order before a clean end; bounded polls after the writer is gone. Non-trivial = schedule in which the consumer parked at least once or an actor was preempted; distinct by (program, config, choice vector).",
+    rule: "Schedule enumeration on the real chunker code through hook H1: producer programs of up to 4 operations (thorough 5) over {write(1), write(2), flush, wait-until-delivered} + drop, chunk size 2 (identity) and of up to 3 operations with the gzip writer (chunk size 6; every operation is several chunker writes), against a consumer that parks on Pending, with same/fresh waker per poll (wakes to superseded wakers are ignored), 0 or 2 spurious polls, with/without is_end_stream/size_hint sampling; every schedule with <= 2 preemptions (thorough 3) is executed by stateless DFS (two real threads, exactly one runs, hand-over at lock acquisitions, wake() and operation boundaries); plus proptest over programs of <= 6 operations, chunk sizes 1-3 and random choice vectors (unbounded preemptions). Oracle (history invariants): no quiescent state with the consumer parked and un-woken while data, end or abort is undelivered; everything flushed is received in order before a clean end; bounded polls after the writer is gone. Non-trivial = schedule in which the consumer parked at least once or an actor was preempted; distinct by (program, config, choice vector).",
     assumptions: &[
         "interleavings are at lock / wake / operation granularity: complete for this code because every shared field sits behind the one instrumented mutex",
         "no weak-memory effects (all sharing goes through std::sync::Mutex)",
@@ -906,9 +927,28 @@ fn run_common(cx: &Cx, c11: bool) -> Acc {
         }
         for cfg in configs() {
             units.push(SchedCase {
+                gzip: None,
                 chunk: 2,
                 program: program.clone(),
                 cfg,
+                choices: vec![],
+            });
+        }
+    }
+    // gzip writer: short programs (each operation is several chunker writes), chunk size 6.
+    for program in programs(3, c11) {
+        if c11 && !program.iter().any(|o| matches!(o, POp::Abort)) {
+            continue;
+        }
+        if program.iter().any(|o| matches!(o, POp::Wait)) {
+            continue;
+        }
+        for fresh_waker in [false, true] {
+            units.push(SchedCase {
+                gzip: Some(1),
+                chunk: 6,
+                program: program.clone(),
+                cfg: CCfg { fresh_waker, spurious: if fresh_waker { 2 } else { 0 }, sample: false, extra_polls: 1 },
                 choices: vec![],
             });
         }
@@ -955,7 +995,7 @@ pub fn check_c12(case: &SchedCase, acc: &mut Acc) -> (Check, Vec<ChoicePoint>) {
         acc.note(
             if case.program.iter().any(|o| matches!(o, POp::Abort)) { "scheduled-streaming:abort" } else { "scheduled-streaming:clean-end" },
             changed && out.trace.steps.len() >= 3,
-            fingerprint(&(&case.program, case.cfg, &case.choices, case.chunk)),
+            fingerprint(&(&case.program, case.cfg, &case.choices, case.chunk, case.gzip)),
             || json!({"case": case, "history": out.events}),
         );
     }
@@ -969,6 +1009,7 @@ pub fn run_for_c12(cx: &Cx) -> Acc {
     for program in programs(max_len, true) {
         for fresh_waker in [false, true] {
             units.push(SchedCase {
+                gzip: None,
                 chunk: 2,
                 program: program.clone(),
                 cfg: CCfg { fresh_waker, spurious: 1, sample: true, extra_polls: 1 },
